@@ -26,6 +26,8 @@ pub fn prog_strategy(depth: u32) -> BoxedStrategy<Prog> {
     1 => Just(Prog::New),
     3 => piece().prop_map(Prog::From),
     3 => vec(piece(), 0..=4).prop_map(Prog::FromIter),
+    // ropes of many short pieces (lookups that behave differently beyond a handful of pieces)
+    1 => vec(0usize..15, 9..=24).prop_map(Prog::FromIter),
   ];
   leaf
     .prop_recursive(depth, 24, 3, move |inner| {
